@@ -4,14 +4,15 @@ import enccommon
 import gen
 import corpus
 import refdec
-from enccommon import model_line, canon_impl, ints
+from enccommon import canon_impl, ints
+from vlib import fmt_list
 
 PID = 'C02'
-RULE = ('as C01 plus ECI; every produced stream is decoded by the independent reference decoder tools/props/refdec.py; the padding '
+RULE = ('as C01 plus ECI; every produced stream without ECI must pass the Coq-checked conformance certificate (Spec/Recognise.v certify, sound by C02_certificate_sound) and every stream is decoded by the independent reference decoder tools/props/refdec.py; the padding '
         'sweep encodes the empty input and 1..3-codeword inputs for all 48 sizes so that every pad position 2..1558 occurs; '
         'non-trivial = encoding succeeded; plus three deterministic families: capacity boundaries complete for the small symbols (every alphabet x every length delta x every tail kind, with/without FNC1 start, with the single symbol of that capacity alone in the list), codec constants (Base256 runs of 248..252 / 499..501 / 1554..1555 bytes, every alphabet border byte in every context), every non-empty mode subset x {FNC1, ECI, macro, none} prefix; and the regression corpus of minimised former witnesses')
-THEOREMS = 'C02_symbol_and_length, C02_error_codewords, C02_codeword_vector, C02_padding, C02_padding_form, C02_randomised_pad, C02_header, C02_ascii_plan_conformant, C02_ascii_only_conformant, C02_base256_only_conformant'
-ASSUMPTIONS = ['refdec.py is an independent reading of ISO/IEC 16022 5.2',
+THEOREMS = 'C02_symbol_and_length, C02_error_codewords, C02_codeword_vector, C02_padding, C02_padding_form, C02_randomised_pad, C02_header, C02_ascii_plan_conformant, C02_ascii_only_conformant, C02_base256_only_conformant, C02_certificate_sound, C02_certificate_sound_prefixed, C02_certificate_decodes'
+ASSUMPTIONS = ['refdec.py is an independent reading of ISO/IEC 16022 5.2 (arbiter for the streams the Coq certificate does not cover: ECI)',
                'the sort order of remove_hopeless_cases is taken from the implementation (hook trace)']
 
 
@@ -30,6 +31,41 @@ def gen_cases(rng, tier, ctx):
     return cs
 
 
+# ---- the Coq-checked conformance certificate (Spec/Recognise.v, sound by Proofs/Certify.v) ----
+# Every successful encoding without ECI is sent back to the extracted checker together with the input bytes: `certify`
+# accepts only if the stream is the rendering of a legal script of Spec/Stream16022.v spelling these bytes.
+CERT = {'last': None}
+
+
+def macro_body(cfg):
+    d = cfg['data']
+    if cfg['macros'] and not cfg['fnc1'] and len(d) >= 9 and d[-2:] == gen.TRAIL:
+        if d[:7] == gen.H05:
+            return 236, d[7:-2]
+        if d[:7] == gen.H06:
+            return 237, d[7:-2]
+    return None, d
+
+
+def model_line(c, io):
+    line = enccommon.model_line(c, io)
+    cfg = c['cfg']
+    if io and io.startswith('ok ') and cfg['eci'] is None and line != c['line']:
+        dcw = io.split(' ')[2]
+        m, body = macro_body(cfg)
+        prefix = 232 if cfg['fnc1'] else m
+        line += ' K%s;%s;%s' % ('N' if prefix is None else prefix, dcw, fmt_list(body))
+    return line
+
+
+def canon_model(mo, prof):
+    CERT['last'] = None
+    if ' cert=' in mo:
+        mo, cert = mo.rsplit(' cert=', 1)
+        CERT['last'] = cert
+    return mo
+
+
 def check_impl(c, out, ctx, prof):
     if not out.startswith('ok '):
         return None
@@ -45,6 +81,14 @@ def check_impl(c, out, ctx, prof):
         return '%d data codewords, %s has %d' % (len(dcw), common.VARIANTS[sym], sp['data'])
     if len(cw) != sp['data'] + sp['ec'] or cw[:len(dcw)] != dcw:
         return '%d codewords in total, %s has %d' % (len(cw), common.VARIANTS[sym], sp['data'] + sp['ec'])
+    cert = CERT['last']
+    CERT['last'] = None
+    if cfg['eci'] is None and cert is not None:
+        st = ctx.stats.setdefault('coq_certificate', {'certified': 0, 'rejected': 0})
+        st['certified' if cert == '1' else 'rejected'] += 1
+        if cert != '1':
+            return ('the Coq-checked certificate rejects the stream: it is not the rendering of a legal script of '
+                    'Spec/Stream16022.v for these bytes')
     r = refdec.decode(dcw)
     if r['error']:
         return 'reference decoder rejects the stream: %s' % r['error']
